@@ -10,7 +10,12 @@ impl Pow<f64> for Dual {
         Dual {
             real: self.real.pow(power),
             vars: self.vars,
-            dual: self.dual * power * self.real.pow(power - 1.0),
+            // x^0 is constant: avoid 0 * inf = NaN at a zero base
+            dual: if power == 0.0 {
+                self.dual * 0.0
+            } else {
+                self.dual * power * self.real.pow(power - 1.0)
+            },
         }
     }
 }
@@ -21,7 +26,12 @@ impl Pow<f64> for &Dual {
         Dual {
             real: self.real.pow(power),
             vars: Arc::clone(self.vars()),
-            dual: &self.dual * power * self.real.pow(power - 1.0),
+            // x^0 is constant: avoid 0 * inf = NaN at a zero base
+            dual: if power == 0.0 {
+                &self.dual * 0.0
+            } else {
+                &self.dual * power * self.real.pow(power - 1.0)
+            },
         }
     }
 }
@@ -29,8 +39,17 @@ impl Pow<f64> for &Dual {
 impl Pow<f64> for Dual2 {
     type Output = Dual2;
     fn pow(self, power: f64) -> Self::Output {
-        let coeff = power * self.real.powf(power - 1.);
-        let coeff2 = 0.5 * power * (power - 1.) * self.real.powf(power - 2.);
+        // x^0 and x^1 have vanishing first / second derivative: avoid 0 * inf = NaN at a zero base
+        let coeff = if power == 0. {
+            0.
+        } else {
+            power * self.real.powf(power - 1.)
+        };
+        let coeff2 = if power == 0. || power == 1. {
+            0.
+        } else {
+            0.5 * power * (power - 1.) * self.real.powf(power - 2.)
+        };
         let beta_cross = fouter11_(&self.dual.view(), &self.dual.view());
         Dual2 {
             real: self.real.powf(power),
@@ -44,8 +63,17 @@ impl Pow<f64> for Dual2 {
 impl Pow<f64> for &Dual2 {
     type Output = Dual2;
     fn pow(self, power: f64) -> Self::Output {
-        let coeff = power * self.real.powf(power - 1.);
-        let coeff2 = 0.5 * power * (power - 1.) * self.real.powf(power - 2.);
+        // x^0 and x^1 have vanishing first / second derivative: avoid 0 * inf = NaN at a zero base
+        let coeff = if power == 0. {
+            0.
+        } else {
+            power * self.real.powf(power - 1.)
+        };
+        let coeff2 = if power == 0. || power == 1. {
+            0.
+        } else {
+            0.5 * power * (power - 1.) * self.real.powf(power - 2.)
+        };
         let beta_cross = fouter11_(&self.dual.view(), &self.dual.view());
         Dual2 {
             real: self.real.powf(power),
